@@ -401,12 +401,17 @@ def run_personalize_binding(acc, tier):
                 return algorithm_factory(AlgorithmSettings(name, n_iter=n_iter, progress_bar=False, seed=0,
                                                            n_burn_in_iter_frac=burn, annealing=ann))
             ref_algo = build()
-            ref_algo._initialize_annealing()
             expected = []
-            for k in range(1, n_iter + 1):
-                ref_algo.current_iteration = k
-                ref_algo._update_temperature()
-                expected.append((k, ref_algo.temperature))
+            try:
+                ref_algo._initialize_annealing()
+                for k in range(1, n_iter + 1):
+                    ref_algo.current_iteration = k
+                    ref_algo._update_temperature()
+                    expected.append((k, ref_algo.temperature))
+            except Exception as e:  # the stepped machine itself fails on an accepted configuration (also reported by the temperature part)
+                acc.violation(f"personalize|accepted annealing configuration raises {type(e).__name__}|{name}", f"stepping the schedule: {e}", case)
+                acc.outcome("personalize:raised")
+                continue
             algo = build()
             seen = []
             orig = type(algo)._update_temperature
